@@ -82,7 +82,7 @@ def match_known(known, prop, sub_name, label, case):
         if k.get("subcheck") not in (None, "*", sub_name):
             continue
         kl = k.get("label")
-        if kl and not (label == kl or (kl.endswith("*") and label.startswith(kl[:-1]))):
+        if kl and not (label == kl or (kl.endswith("*") and label.startswith(kl[:-1])) or (kl.startswith("*") and label.endswith(kl[1:]))):
             continue
         pred = k.get("predicate")
         if pred:
@@ -126,6 +126,7 @@ def run_job(args):
         pass
 
     from vlib.core import HarnessError, Violation, canon, case_hash
+    from vlib import hooks
 
     t0 = time.time()
     out = dict(
@@ -152,9 +153,13 @@ def run_job(args):
     def evaluate(case, record=True):
         """returns None, or raises Violation for an unlisted, unmuted failure."""
         out["evaluations"] += 1
+        hooks.reset()
         try:
             labs = sub.body(case)
         except Violation as v:
+            if hooks.unconverged_explicit():
+                # the caller-chosen solver hit its iteration limit and dreye returned the unconverged iterate (known finding class)
+                v.label = v.label + ":explicit-solver-unconverged"
             if v.label in muted:
                 muted_counts[v.label] += 1
                 return
@@ -269,9 +274,14 @@ def run_replay_file(prop, path):
     sub = next((s for s in prop.subs if s.name == rep["subcheck"]), None)
     if sub is None:
         return "error", f"unknown subcheck {rep['subcheck']}"
+    from vlib import hooks
+
+    hooks.reset()
     try:
         sub.body(rep["case"])
     except Violation as v:
+        if hooks.unconverged_explicit():
+            v.label = v.label + ":explicit-solver-unconverged"
         k = match_known(load_known(prop.pid), prop, sub.name, v.label, rep["case"])
         if k is not None:
             return "known", k
